@@ -2,7 +2,7 @@
     Model: Model/Cleanup.v ([cleanup d repos now shardMerging] = cmd/zoekt-sourcegraph-indexserver/cleanup.go
     after the repair `fix: indexserver cleanup: tombstone unassigned repos in compound shards even when
     they also have simple shards`).  Proofs: Proofs/CleanupProofs.v. *)
-From ZV Require Import Lib.Base Model.Cleanup Proofs.CleanupProofs Proofs.CleanupUnassigned.
+From ZV Require Import Lib.Base Model.Cleanup Proofs.CleanupProofs Proofs.CleanupUnassigned Proofs.CleanupTrash.
 Open Scope Z_scope.
 
 (** assigned_kept.  For every well-formed index directory, every assigned set, every time and both
@@ -48,6 +48,22 @@ Theorem C32_unassigned_not_searchable_after : forall d repos now sm id,
 Proof. intros d repos now sm id H1 H2 H3. exact (unassigned_not_alive_after d repos now sm id H1 H2 H3). Qed.
 Print Assumptions C32_unassigned_not_searchable_after.
 
+(** trash_deleted_only_if_old_or_conflict (contrapositive): a trashed shard of a repository that is not
+    assigned (assigned ones are restored), none of whose trashed shards is older than 24 h
+    ([trash_old]: mtime < now - 86400, strict) and that is not alive in the index ([trash_drop] = false
+    is exactly "no conflict and not old") is still in the trash afterwards, with its content. *)
+Theorem C32_trash_kept_unless_old_conflicting_or_assigned : forall d repos now sm t e id,
+  wf d -> wf_trash d -> In t (d_trash d) -> In e (alive_entries t) -> e_id e = id ->
+  trash_drop d now id = false -> ~ In id repos ->
+  exists t', In t' (d_trash (cleanup d repos now sm)) /\ f_base t' = f_base t /\ f_repos t' = f_repos t.
+Proof. intros. eapply trash_kept; eauto. Qed.
+Print Assumptions C32_trash_kept_unless_old_conflicting_or_assigned.
+
+Theorem C32_trash_24h_boundary_exact : forall now s,
+  trash_old now [s] = (s_mtime s <? now - 86400).
+Proof. exact trash_old_boundary. Qed.
+Print Assumptions C32_trash_24h_boundary_exact.
+
 Theorem C32_tmp_files_removed : forall d repos now sm, d_tmps (cleanup d repos now sm) = 0%nat.
 Proof. exact tmp_removed. Qed.
 Print Assumptions C32_tmp_files_removed.
@@ -62,7 +78,8 @@ Definition ex_big : dir :=
         mkF 4 true (-3600) [mkE 1 1 true 1000; mkE 4 4 false 2000; mkE 5 5 false 1000; mkE 6 6 true 3000] ]
       [ mkF 5 false (-86401) [mkE 7 7 false 1000];                                 (* old *)
         mkF 6 false (-86400) [mkE 8 8 false 1000];                                 (* exactly 24h: kept, restored *)
-        mkF 0 false (-60) [mkE 1 1 false 1000] ]                                   (* conflicts with the index *)
+        mkF 0 false (-60) [mkE 1 1 false 1000];                                    (* conflicts with the index *)
+        mkF 7 false (-86400) [mkE 9 9 false 1000] ]                                (* unassigned, exactly 24h: kept *)
       2.
 Definition ex_repos : list N := [1; 4; 6; 8]%N.
 
@@ -84,10 +101,10 @@ Proof.
 Qed.
 
 (* the result: 1 kept (simple), 2 trashed, 3 purged, compound shard kept with 4 alive, 5 tombstoned, 6 revived;
-   trash: 7 expired, 8 restored, conflicting copy of 1 deleted; tmp files gone *)
+   trash: 7 expired, 8 restored, conflicting copy of 1 deleted, 9 kept; tmp files gone *)
 Example ex_big_result :
   let x := cleanup ex_big ex_repos 0 true in
-  map f_base (d_index x) = [0; 4; 6]%N /\ map f_base (d_trash x) = [1%N] /\ d_tmps x = 0%nat /\
+  map f_base (d_index x) = [0; 4; 6]%N /\ map f_base (d_trash x) = [7; 1]%N /\ d_tmps x = 0%nat /\
   option_map (fun f => map (fun e => (e_id e, e_tomb e)) (f_repos f)) (find_file 4 (d_index x))
     = Some [(1, true); (4, false); (5, true); (6, false)]%N.
 Proof. vm_compute. repeat split; reflexivity. Qed.
